@@ -120,6 +120,12 @@ def run(res, tier, rng, table_diffs=()):
     cases += function_boundary()
     from .. import gen2
     cases += [("tail-shapes", p) for p in gen2.tail_shape_programs()]
+    # `antwoord` (from nested loops) and the end of a body return to JUST BEHIND THE CALL wherever the call lies: calls from and
+    # functions beyond byte 65535 of the top-level code (round 10)
+    cases += gen2.big_code_programs()
+    pad = "som = som + 1;" * 4800
+    cases.append(("big-code", "stel som = 0; stel n = 0; functie f(k) { n = n + 1; stel i = 0; zolang ja { zolang ja { i += 1; als i > k { antwoord i } } } };\n" + pad + "\nstel r = f(3); [r, n, som]"))
+    cases.append(("big-code", "stel som = 0; stel n = 0; functie g() { n = n + 1; als n > 1 { antwoord 0 - 1 }; n + 1 };\n" + pad + "\n[g(), n, som]"))
 
     def residue(label, src, r):
         st = diff.stats(r["impl"])
